@@ -54,6 +54,10 @@ Proof. exact common_values_order_free. Qed.
 Theorem C02_threshold_column_found_by_value : forall (A : Type) thr (cols : list A) t c,
   distinct thr -> stores A thr cols t c -> stored_column A thr cols t = Some c.
 Proof. exact stored_column_by_value. Qed.
+Theorem C02_threshold_columns_in_any_order : forall (A : Type) thr (cols : list A) thr' cols' t c,
+  distinct thr -> distinct thr' -> Permutation.Permutation (combine thr cols) (combine thr' cols') ->
+  stores A thr cols t c -> stored_column A thr cols t = Some c /\ stored_column A thr' cols' t = Some c.
+Proof. exact stored_column_order_free. Qed.
 Theorem C02_absent_threshold_is_not_found : forall (A : Type) thr (cols : list A) t,
   (forall x, In x thr -> ~ (x == t)%Q) -> stored_column A thr cols t = None.
 Proof. exact absent_threshold_not_found. Qed.
